@@ -197,7 +197,10 @@ fn eval_instr<'a>(args: &[Option<Value<'a>>]) -> Option<Value<'a>> {
     let haystack = get_text(args.first()?)?;
     let needle = get_text(args.get(1)?)?;
 
-    let pos = haystack.find(needle.as_ref()).map(|p| p + 1).unwrap_or(0);
+    let pos = haystack
+        .find(needle.as_ref())
+        .map(|p| haystack[..p].chars().count() + 1)
+        .unwrap_or(0);
     Some(Value::Int(pos as i64))
 }
 
@@ -298,7 +301,11 @@ fn eval_concat_ws<'a>(args: &[Option<Value<'a>>]) -> Option<Value<'a>> {
 
 fn eval_lpad<'a>(args: &[Option<Value<'a>>]) -> Option<Value<'a>> {
     let text = get_text(args.first()?)?;
-    let target_len = get_int(args.get(1)?)? as usize;
+    let target_len = get_int(args.get(1)?)?;
+    if target_len < 0 {
+        return Some(Value::Null);
+    }
+    let target_len = target_len as usize;
     let pad = get_text(args.get(2)?)?;
 
     let char_count = text.chars().count();
@@ -325,7 +332,11 @@ fn eval_lpad<'a>(args: &[Option<Value<'a>>]) -> Option<Value<'a>> {
 
 fn eval_rpad<'a>(args: &[Option<Value<'a>>]) -> Option<Value<'a>> {
     let text = get_text(args.first()?)?;
-    let target_len = get_int(args.get(1)?)? as usize;
+    let target_len = get_int(args.get(1)?)?;
+    if target_len < 0 {
+        return Some(Value::Null);
+    }
+    let target_len = target_len as usize;
     let pad = get_text(args.get(2)?)?;
 
     let char_count = text.chars().count();
